@@ -31,12 +31,13 @@ type ctlsCase struct {
 // tlsFake is a TCP fake server with scripted behaviour around STARTTLS; it
 // records the verbs it receives in plaintext and inside TLS.
 type tlsFake struct {
-	ln    net.Listener
-	b     string
-	mu    sync.Mutex
-	plain []string
-	intls []string
-	raw   []string
+	ln     net.Listener
+	b      string
+	mu     sync.Mutex
+	plain  []string
+	intls  []string
+	raw    []string
+	tlsraw []string
 }
 
 func newTLSFake(b string) (*tlsFake, error) {
@@ -83,7 +84,7 @@ func (f *tlsFake) serve() {
 				c.Write([]byte("250-fake.test\r\n250-AUTH PLAIN LOGIN\r\n250 8BITMIME\r\n"))
 			} else {
 				// plaintext capabilities the client must not trust after the upgrade
-				c.Write([]byte("250-fake.test\r\n250-STARTTLS\r\n250-AUTH LOGIN\r\n250 SIZE 1\r\n"))
+				c.Write([]byte("250-fake.test\r\n250-STARTTLS\r\n250-AUTH LOGIN\r\n250-8BITMIME\r\n250 SIZE 1\r\n"))
 			}
 		case "STARTTLS":
 			switch f.b {
@@ -150,9 +151,14 @@ func (f *tlsFake) tlsLoop(tc *tls.Conn) {
 		v := verbOf(line)
 		f.mu.Lock()
 		f.intls = append(f.intls, v)
+		f.tlsraw = append(f.tlsraw, line)
 		f.mu.Unlock()
 		switch v {
 		case "EHLO":
+			if f.b == "heloonly" {
+				tc.Write([]byte("502 5.5.1 EHLO not implemented here\r\n"))
+				continue
+			}
 			tc.Write([]byte("250-fake.test\r\n250-AUTH PLAIN\r\n250 SIZE 7777\r\n"))
 		case "AUTH":
 			tc.Write([]byte("235 2.7.0 ok\r\n"))
@@ -197,7 +203,18 @@ func runCTLS(c *ctlsCase) string {
 		default:
 			callErr = smtp.SendMail(addr, sasl.NewPlainClient("", "secret-user", "secret-password"), "secret-sender@x.test", []string{"secret-rcpt@x.test"}, strings.NewReader("Subject: secret\r\n\r\nsecret body\r\n"))
 		}
-		if cl != nil && callErr == nil {
+		if cl != nil && callErr == nil && c.Caps == "helo" {
+			// HELO fallback inside TLS: the client knows of no extension, whatever it saw in plaintext
+			for _, x := range []string{"SIZE", "AUTH", "8BITMIME", "STARTTLS"} {
+				if ok, p := cl.Extension(x); ok {
+					callErr = fmt.Errorf("after the HELO fallback inside TLS the client still reports %s %q, seen in plaintext only", x, p)
+				}
+			}
+			if err := cl.Mail("in-tls@x.test", &smtp.MailOptions{Size: 5}); err != nil {
+				callErr = fmt.Errorf("Mail after the HELO fallback: %v", err)
+			}
+			cl.Close()
+		} else if cl != nil && callErr == nil {
 			// first use after the upgrade: capabilities must come from inside TLS
 			ok, params := cl.Extension("SIZE")
 			if !ok || params != "7777" {
@@ -231,6 +248,13 @@ func runCTLS(c *ctlsCase) string {
 	}
 	if c.OK != (callErr == nil) {
 		return fmt.Sprintf("specification: success=%v; the call returned %v", c.OK, callErr)
+	}
+	if c.Caps == "helo" {
+		for _, l := range f.tlsraw {
+			if verbOf(l) == "MAIL" && len(strings.Fields(l)) > 2 {
+				return fmt.Sprintf("inside TLS after the HELO fallback the client sent ESMTP parameters it knows from plaintext only: %q", l)
+			}
+		}
 	}
 	if c.OK {
 		got := append([]string{}, f.intls...)
